@@ -822,6 +822,26 @@ func checkC10(w *World, r *Report) {
 			okR = true
 		}
 		r.Check(okR, "C10.R5", fname(a.regGetPID)+":result", "GetPID returns the found process's PID, or nil", w.fnPos(a.regGetPID), "GetPID returns something else than the registered process's PID")
+		// both GetPID variants: the PID is returned exactly on the found edge, nil on the other
+		for _, gp := range []*ssa.Function{a.regGetPID, w.Method("actor", "Context", "GetPID")} {
+			if gp == nil {
+				continue
+			}
+			gg := w.FG(gp)
+			isNil, nonNil := w.nilEdges(gg, "re:call:\\(\\*actor\\.Registry\\)\\.getByID\\(.*\\)")
+			okP := len(isNil) > 0 && len(nonNil) > 0
+			for _, x := range gg.returns {
+				p := w.pathOf(gg.ins[x].(*ssa.Return).Results[0])
+				if strings.HasPrefix(p, "call:Processer.PID(") && !gg.OnlyVia(nonNil, x) {
+					okP = false
+				}
+				if p == "K:nil" && !gg.OnlyVia(isNil, x) {
+					okP = false
+				}
+			}
+			r.Check(okP, "C10.R5", fname(gp)+":found-edge", "the PID is returned exactly when a process is registered under the id, nil otherwise", w.fnPos(gp),
+				"GetPID answers nil for a registered id (or dereferences a missing entry)")
+		}
 		cg := w.Method("actor", "Context", "GetPID")
 		okC := cg != nil
 		if okC {
